@@ -77,3 +77,20 @@ def to_impl(comps):
 
 def pretty(comps):
     return [f"{c['id']}:{c['kind']}({','.join(c['nodes'])}){c['args']}" for c in comps]
+
+def wellposed_at(drv, circ, w):
+    """is the circuit's phasor network at angular frequency w well-posed (exact, spec tableau)?
+    Uses the implementation's own transform_circuit only to obtain the network to test."""
+    import numpy as np
+    from CircuitCalculator.Circuit.circuit import transform_circuit
+    if drv is None:
+        return True
+    try:
+        net = transform_circuit(circ, w)
+        for b in net.branches:
+            vals = [b.element.Z, b.element.V] if type(b.element).__name__ == 'NortenElement' else [b.element.Y, b.element.I]
+            if not all(np.isfinite(complex(x)) for x in vals):
+                return False
+        return bool(drv.call('wellposed', net=gen_net.impl_to_json(net))['wellposed'])
+    except Exception:
+        return False
